@@ -171,3 +171,143 @@ func (w *Workspace) structuralC05() *FuncResult {
 	}
 	return res
 }
+
+// writerRule: a module-level frame condition. Every call of one of the
+// writer functions (matched by method or function name) made from the listed
+// packages must sit in a function that is itself under a (non-trusted)
+// contract serving the property, so that no unverified path can write the
+// state the property is about. Functions in `allow` are accepted with the
+// stated assumption (genesis import, one-time migrations).
+type writerRule struct {
+	Prop    string
+	What    string
+	Pkgs    []string          // package paths relative to the module
+	Writers map[string]bool   // callee names (method or function name)
+	Recv    map[string]bool   // accepted receiver type names (empty: any)
+	Allow   map[string]string // enclosing function (pkg-relative key) -> assumption
+}
+
+var writerRules = map[string][]writerRule{
+	"C14": {{
+		Prop: "C14", What: "attestation and report forms",
+		Pkgs:    []string{"x/storage/keeper", "x/storage"},
+		Writers: map[string]bool{"SetAttestationForm": true, "SetReportForm": true, "RemoveAttestation": true, "RemoveReport": true, "RemoveAllAttestation": true, "RemoveAllReport": true},
+		Recv:    map[string]bool{"Keeper": true, "msgServer": true},
+		Allow: map[string]string{
+			"x/storage.InitGenesis": "genesis import writes the exported forms back (C19); not a transaction path",
+		},
+	}},
+	"C01": {{
+		Prop: "C01", What: "proof records and prover lists",
+		Pkgs:    []string{"x/storage/keeper", "x/storage/types", "x/storage"},
+		Writers: map[string]bool{"SetProof": true, "AddProver": true, "Save": true, "SetProven": true, "ResetChunkWithProof": true, "ResetChunk": true},
+		Recv:    map[string]bool{"Keeper": true, "ProofLoader": true, "UnifiedFile": true, "FileProof": true, "msgServer": true},
+		Allow: map[string]string{
+			"x/storage/types.(*FileProof).Save": "wrapper of SetProof without callers in the module (checked: its callers are scanned like any other writer)",
+			"x/storage.InitGenesis":             "genesis import (C19); not a transaction path",
+		},
+	}},
+}
+
+func (w *Workspace) structuralWriters(prop string) *FuncResult {
+	rules := writerRules[prop]
+	if len(rules) == 0 {
+		return nil
+	}
+	res := &FuncResult{Key: "module-level frame: writers of " + rules[0].What}
+	for _, rule := range rules {
+		for _, rel := range rule.Pkgs {
+			sp := w.ssaPkgs[modPath+"/"+rel]
+			if sp == nil {
+				res.Obls = append(res.Obls, structural(rel, "package_loaded", []string{prop}, false, "package "+rel+" is not loaded"))
+				continue
+			}
+			var fns []*ssa.Function
+			seen := map[*ssa.Function]bool{}
+			var add func(fn *ssa.Function)
+			add = func(fn *ssa.Function) {
+				if fn == nil || seen[fn] || len(fn.Blocks) == 0 {
+					return
+				}
+				seen[fn] = true
+				fns = append(fns, fn)
+				for _, a := range fn.AnonFuncs {
+					add(a)
+				}
+			}
+			for _, m := range sp.Members {
+				switch x := m.(type) {
+				case *ssa.Function:
+					add(x)
+				case *ssa.Type:
+					for _, t := range []types.Type{x.Type(), types.NewPointer(x.Type())} {
+						ms := w.prog.MethodSets.MethodSet(t)
+						for i := 0; i < ms.Len(); i++ {
+							if fn := w.prog.MethodValue(ms.At(i)); fn != nil && fn.Pkg == sp && fn.Synthetic == "" {
+								add(fn)
+							}
+						}
+					}
+				}
+			}
+			sort.Slice(fns, func(i, j int) bool { return fns[i].String() < fns[j].String() })
+			for _, fn := range fns {
+				top := fn
+				for top.Parent() != nil {
+					top = top.Parent()
+				}
+				if strings.HasSuffix(w.prog.Fset.Position(top.Pos()).Filename, "_test.go") {
+					continue
+				}
+				topKey := rel + "." + relName(top)
+				var hits []string
+				for _, b := range fn.Blocks {
+					for _, ins := range b.Instrs {
+						c, ok := ins.(ssa.CallInstruction)
+						if !ok {
+							continue
+						}
+						cc := c.Common()
+						name, recv := "", ""
+						if cc.IsInvoke() {
+							name = cc.Method.Name()
+							if n, ok := cc.Value.Type().(*types.Named); ok {
+								recv = n.Obj().Name()
+							}
+						} else if callee := cc.StaticCallee(); callee != nil {
+							name = callee.Name()
+							if r := callee.Signature.Recv(); r != nil {
+								t := r.Type()
+								if p, ok := t.(*types.Pointer); ok {
+									t = p.Elem()
+								}
+								if n, ok := t.(*types.Named); ok {
+									recv = n.Obj().Name()
+								}
+							}
+						}
+						if !rule.Writers[name] || (len(rule.Recv) > 0 && !rule.Recv[recv]) {
+							continue
+						}
+						hits = append(hits, recv+"."+name)
+					}
+				}
+				if len(hits) == 0 {
+					continue
+				}
+				ct := w.contracts[modPath+"/"+rel+"::"+relName(top)]
+				label := "writer_under_contract:" + mangle(relName(top))
+				switch {
+				case ct != nil && !ct.Trusted && contains(ct.Props, prop):
+					res.Obls = append(res.Obls, structural(topKey, label, []string{prop}, true, fmt.Sprintf("calls %s; the function is under a %s contract", strings.Join(hits, ", "), prop)))
+				case rule.Allow[topKey] != "":
+					res.Notes = append(res.Notes, fmt.Sprintf("%s calls %s: accepted, %s", topKey, strings.Join(hits, ", "), rule.Allow[topKey]))
+					res.Obls = append(res.Obls, structural(topKey, label, []string{prop}, true, "allow-listed: "+rule.Allow[topKey]))
+				default:
+					res.Obls = append(res.Obls, structural(topKey, label, []string{prop}, false, fmt.Sprintf("%s writes %s (calls %s) but is not under a contract serving %s: an unverified path could change the state the property is about", topKey, rule.What, strings.Join(hits, ", "), prop)))
+				}
+			}
+		}
+	}
+	return res
+}
